@@ -15,6 +15,7 @@ CONSTANTS
   CancelCalls = {}
   EnvTClose = FALSE
   Coarse = TRUE
+  Eager = TRUE
   WithHist = TRUE
 INVARIANTS Emit
 CHECK_DEADLOCK FALSE
